@@ -12,6 +12,7 @@ import (
 	"fmt"
 
 	pipeline "github.com/buildkite/go-pipeline"
+	"github.com/buildkite/go-pipeline/ordered"
 	"github.com/buildkite/go-pipeline/signature"
 	"github.com/buildkite/go-pipeline/warning"
 	"gopkg.in/yaml.v3"
@@ -49,11 +50,31 @@ func runC02(c *ctx) error {
 	for i := 0; i < n; i++ {
 		o := &gen.Opts{R: rng, Str: c02Str, Key: gen.DefaultKey, UntypedExotic: true, MaxGroupDepth: 2, MaxMapSize: 12, Hist: c.res.Hist, GroupBias: 10}
 		doc := o.Pipeline()
+		interpolateFirst := rng.Intn(3) == 0
+		if dm, ok := doc.(*ordered.MapSA); ok && interpolateFirst && rng.Intn(3) == 0 {
+			// an env-block entry whose templated name expands onto a later literal name: the rename leaves a
+			// tombstone in the block, and what is signed, marshalled and re-read must all agree on the survivor
+			if ev, ok := dm.Get("env"); ok {
+				if em, ok := ev.(*ordered.MapSA); ok && em.Len() > 0 {
+					var first string
+					em.Range(func(k string, _ any) error {
+						if first == "" {
+							first = k
+						}
+						return nil
+					})
+					ne := ordered.NewMap[string, any](em.Len() + 1)
+					ne.Set("${ZZ_UNSET_ALIAS:-"+first+"}", "templated-name-value")
+					em.Range(func(k string, v any) error { ne.Set(k, v); return nil })
+					dm.Set("env", ne)
+					c.res.Hist("env-block.templated-name-collides")
+				}
+			}
+		}
 		src, style := renderStyles(rng, doc)
 		if src == nil {
 			continue
 		}
-		interpolateFirst := rng.Intn(3) == 0
 		k := keys[rng.Intn(len(keys))]
 		if k.kind == "PS512" && rng.Intn(5) != 0 {
 			k = keys[1]
@@ -100,7 +121,15 @@ func runC02(c *ctx) error {
 				c.res.Fail(f)
 				break
 			}
-			check := func(leg string, steps pipeline.Steps) {
+			envOf := func(pp *pipeline.Pipeline) map[string]string {
+				// what an agent has after reading that pipeline: its env block plus unrelated variables
+				e := map[string]string{"BUILDKITE_UNRELATED": "1"}
+				if pp != nil && pp.Env != nil {
+					pp.Env.Range(func(kk, v string) error { e[kk] = v; return nil })
+				}
+				return e
+			}
+			check := func(leg string, steps pipeline.Steps, venv map[string]string) {
 				cs := commandStepsOf(steps)
 				known := ""
 				tree := dump.Pipeline(p)
@@ -132,7 +161,7 @@ func runC02(c *ctx) error {
 				}
 			}
 			if p2, err2 := pipeline.Parse(bytes.NewReader(jb)); p2 != nil && (err2 == nil || warning.Is(err2)) {
-				check("json/Parse", p2.Steps)
+				check("json/Parse", p2.Steps, envOf(p2))
 				if rep == 0 {
 					if jtree, err := decodeTree(jb); err == nil {
 						var warns []any
@@ -148,7 +177,7 @@ func runC02(c *ctx) error {
 			}
 			if !yamlLegExcluded(dump.Pipeline(p)) {
 				if p3, err3 := pipeline.Parse(bytes.NewReader(yb)); p3 != nil && (err3 == nil || warning.Is(err3)) {
-					check("yaml/Parse", p3.Steps)
+					check("yaml/Parse", p3.Steps, envOf(p3))
 				} else {
 					f := core.OracleFailure{What: "re-parsing the YAML of a signed pipeline fails", Input: desc, Got: fmt.Sprint(err3)}
 					if hasMergeLookalike(dump.Pipeline(p)) {
@@ -175,7 +204,7 @@ func runC02(c *ctx) error {
 				}
 				single = append(single, &cs)
 			}
-			check("json/CommandStep.UnmarshalJSON", single)
+			check("json/CommandStep.UnmarshalJSON", single, venv)
 			if rep == 0 {
 				c.res.Case(string(src)+k.kind, nCmd > 0)
 				c.res.Hist("style." + style)
